@@ -650,7 +650,16 @@ func (q *TransferQueue) enqueueAndCollectRetriesFor(batch batch) (batch, error) 
 
 	toTransfer := make([]*Transfer, 0, len(bRes.Objects))
 
+	handled := make(map[string]struct{}, len(bRes.Objects))
+
 	for _, o := range bRes.Objects {
+		// Each object completes exactly once: ignore repeated entries
+		// for an OID that this response has already listed.
+		if _, ok := handled[o.Oid]; ok {
+			continue
+		}
+		handled[o.Oid] = struct{}{}
+
 		if o.Error != nil {
 			q.errorc <- errors.Wrapf(o.Error, "[%v] %v", o.Oid, o.Error.Message)
 			q.Skip(o.Size)
